@@ -660,7 +660,8 @@ def stream_sem(ctx: Ctx, emit_cases_done: list[tuple[dict[str, Any], list[str], 
 			py_real.append(f'ok f:{int(float(r[:-1]) * 4096)}')
 		else:
 			py_real.append(f'ok i:{r}')
-	# where the model reports a tag mismatch (the emitter's `%` template choice, finding fmod:left-type) there is no Python-subset claim
+	# a tag mismatch (the emitter chose the `%` template from types that do not describe the operands: the repaired fmod:left-type)
+	# is reported as a disagreement: with the types tranp inferred it cannot occur any more
 	model_py = common.lean_driver('emit', [f"evalpy\t{env}\t{d['enc']}" for d, _, env in cases_in])
 	tag_ix = {k for k, m in enumerate(model_py) if m == 'tagmismatch'}
 	fused_ix = {k for k, (d, _, _) in enumerate(cases_in) if {'--', '++'} & set(cpp_tokens(d['text']))}
@@ -699,7 +700,7 @@ def stream_sem(ctx: Ctx, emit_cases_done: list[tuple[dict[str, Any], list[str], 
 	cases = []
 	for k, (d, vals, env) in enumerate(cases_in):
 		ops, real = [], []
-		if py_real[k] is not None and k not in tag_ix:
+		if py_real[k] is not None:
 			ops.append(f"evalpy\t{env}\t{d['enc']}")
 			real.append(py_real[k])
 		if k in cpp_real:
@@ -710,7 +711,7 @@ def stream_sem(ctx: Ctx, emit_cases_done: list[tuple[dict[str, Any], list[str], 
 	st = common.correspond('sem', cases, 'emit', classify=lambda d: f"py:{d['py'][:4]}/cpp:{(d['cpp'] or 'n/a')[:4]}")
 	st.histogram['cpp-undefined-skipped'] = len(ub_ix)
 	st.histogram['cpp-fused-sign'] = len(fused_ix)
-	st.histogram['py-tagmismatch-skipped'] = len(tag_ix)
+	st.histogram['py-tagmismatch'] = len(tag_ix)
 	st.histogram['py-inexact-float-skipped'] = sum(1 for r in py_real if r is None)
 	st.note = ('int/bool/float operator expressions incl. ternary of stream emit evaluated on random environments: pyEval vs CPython (instrumented = the subset checks), '
 		'cEvalX(parseX (emit n)) vs g++ -std=c++20 -fsanitize=undefined running the real emitted text (floats as double on both sides)')
@@ -1015,10 +1016,10 @@ STATEMENTS = {
 	'flat_iff': 'the unguarded flat text (emitter before 0598c93) is re-parsed into Python\'s tree iff no parent/child slot is in badPairs (60 slots computed from the two tables): why the guards are needed',
 	'sem': 'inside the agreement subset (32-bit ints, % on non-negative/positive operands, no /, shifts 0..31, bools under and/or/not, no comparison chain) the C++ value of the tree with Python\'s grouping equals the Python value, without UB',
 	'agree': 'group + sem: for chain-free core nodes and in-subset evaluations the emitted token text, as C++ parses it, evaluates to the Python value',
-	'sem_full': 'sem with floats abstract (FOps F, only law: floor-% = fmod on non-negative dividend / positive divisor): int->float promotion in mixed arithmetic and comparisons, / with a float operand, the fmod branch of the % template, ternary; at every % the emitter\'s type tags must describe the operand values (else tagMismatch: finding fmod:left-type)',
+	'sem_full': 'sem with floats abstract (FOps F, only law: floor-% = fmod on non-negative dividend / positive divisor): int->float promotion in mixed arithmetic and comparisons, / with a float operand, the fmod branch of the % template, ternary; at every % the emitter\'s type tags must describe the operand values (else tagMismatch; never on truthfully tagged Term chains since the repair of fmod:left-type)',
 	'agree_full': 'group_full + sem_full: the emitted tokens, parsed by the wrapper grammar, evaluate in C++ (usual arithmetic conversions, fmod call, ?:, short-circuit) to the Python value for every in-subset evaluation',
 	'toyOps_law': 'non-vacuity of the float hypotheses (an interpretation satisfying ModLaw) + an example through agree_full',
-	'fmod_left_type_counterexample': 'x % a % b with float x: the emitted text is fmod(x, a) % b, ill-formed in C++ for every float x (the tag check of sem_full is not vacuous; finding fmod:left-type)',
+	'fmod_left_type_regression': 'the repaired fmod:left-type (6063966, Ty.acc: the accumulated left type stays floating point): x % a % b with float x is emitted fmod(fmod(x, a), b), is inside agree_full, and the tag check of pyEval never fires on it for a float x and ints a, b',
 	'stmt_decl': 'the model of VarsCollector (one pass, `_merged`: same or enclosing scope) marks as declarations exactly the assignments whose name is not declared in an open C++ block at that point (proved equal to the scoped reading annotV)',
 	'stmt_agree': 'statements core (v = e, return e, if/elif/else, while over the operator core, 32-bit ints/bools): if every read is visible in the C++ block structure (scopeOK) and the Python run (one function-level store) is InSubset and returns r, the C++ reading of the emitted statements (declaration at the first assignment per scope chain, block frames pushed/popped at braces, emitted expression tokens parsed by cppTable) returns r with the same fuel',
 	'stmt_scope_counterexample': 'scopeOK is not vacuous: `if a > 0: v = 1 else: v = 2; return v` is valid Python (returns 1) but the statements the collector logic yields read an undeclared v (the real emitter rejects: finding reject:block-scoped-name)',
@@ -1055,7 +1056,7 @@ def run(ctx: Ctx) -> int:
 				'pyEval / cEvalX = CPython / g++ on ints, bools, floats (stream sem); Model.EmitStmt = real Py2Cpp body lines, CPython and g++ on generated core programs (stream stmt)',
 			'search_only': 'for loops, break/continue, functions/closures/default args, classes, enums, containers, comprehensions, strings, casts, exceptions, augmented/destructuring assignment, float and bool variables in statements, '
 				'acceptance by g++ -std=c++20, never-rejected: generated programs vs CPython',
-			'false_on_current_tree': 'the grouping sentence for comparison chains (group_chain_counterexample; known finding chain-compare); the % template on float chains (fmod_left_type_counterexample; finding fmod:left-type); '
+			'false_on_current_tree': 'the grouping sentence for comparison chains (group_chain_counterexample; known finding chain-compare); '
 				'never-rejected for names first assigned in a nested block and read after it (stmt_scope_counterexample; finding reject:block-scoped-name)',
 		},
 		assumptions=[
